@@ -85,12 +85,25 @@ func init() {
 		}
 		d := &storeDrv{backend: "pebble", nm: newNameMap(), plan: &plan}
 		var out []int
-		for _, h := range plan.Histories {
+		for hi, h := range plan.Histories {
+			// the same version numbering as a real run of this history: versions are allocated by
+			// add / addbatch / migrate in order, the payload cycle starts at the history's base
+			d.vers = nil
+			d.verBase, d.pad = plan.baseOf(hi), plan.Pad
 			for _, st := range h {
+				switch st.Op.Op {
+				case "add":
+					if st.Op.Sig != nil {
+						d.newVer(*st.Op.Sig)
+					}
+				case "addbatch":
+					for _, a := range st.Op.Sigs {
+						d.newVer(a)
+					}
+				}
 				if st.Op.Op != "migrate" {
 					continue
 				}
-				d.vers = nil
 				var list []detection.Signature
 				for _, a := range st.Op.Sigs {
 					_, sig := d.newVer(a)
